@@ -27,6 +27,7 @@ ALIVE_ALT = (simp(("cmp", "<", C(0), SF(REACH))),)
 def r1(ctx, chk, rule="C03.1"):
     n = shared.rule_iterator_invalidation(ctx, chk, rule)
     chk.extra.setdefault("loops_examined", n)
+    shared.rule_single_use_iterators(ctx, chk, rule)
     _canary_iter(ctx, chk)
 
 
@@ -98,6 +99,9 @@ def r23(ctx, chk, rule2="C03.2", rule3="C03.3"):
             chk.violation(rule2, where, "survivors are drawn from `%s`%s, not from the whole successor list" % (show(src_t), "" if kf.whole else " (slice)"),
                           expected="FILTER(self.next_states, R[t] != 0)", found=kf.text(), construct="%s.prune_paths source" % cls)
             continue
+        flt2 = _dead_set_filter(ctx, k, flt)
+        if flt2 is not None:
+            flt = flt2
         v = _alive_filter_verdict(flt)
         if v is None:
             chk.ok(rule2, where, "%s keeps exactly the successors with state[t].reach_probability != 0 (every element tested)" % cls)
@@ -195,7 +199,8 @@ def _something_dropped(k, cond):
         if a == SELF_NEXT:
             return "S"
         ko = k.kfold(a)
-        if ko is not None and ko.kind == "COMPR" and ko.term == ("e",) and ko.source == SELF_NEXT and _alive_filter_verdict(ko.filter) is None:
+        if ko is not None and ko.kind == "COMPR" and ko.term == ("e",) and ko.source == SELF_NEXT \
+                and _alive_filter_verdict(_dead_set_filter(k.ctx, k, ko.filter) or ko.filter) is None:
             return "F"
         if ko is not None and ko.kind == "COMPR" and ko.source == SELF_NEXT and ko.filter == simp(("cmp", "==", SF(REACH), C(0))):
             return "D"
@@ -233,6 +238,75 @@ def _something_dropped(k, cond):
                 return False
             return False
     return None
+
+
+def _dead_set_filter(ctx, k, flt):
+    """`target not in DEAD` with DEAD = {s.idx for s in <all states> if P(s)} (computed in the method, by a helper, or handed in by
+    Solver.prune_paths) is the filter `not P(state[target])` - node indices are list positions.  Returns that filter in canonical
+    form, a filter that is recognisably something else, or None when the shape is not this one."""
+    from ..symx import subst, deep_simp
+    if not (flt[0] == "cmp" and flt[1] == "notin" and flt[2] == ("t",)):
+        return None
+
+    def set_pred(sx, t, slist_terms, depth=0):
+        """canonical P for a set term t of sx, or None"""
+        if depth > 4:
+            return None
+        if t[0] == "ite":
+            a, b = set_pred(sx, t[2], slist_terms, depth + 1), set_pred(sx, t[3], slist_terms, depth + 1)
+            if a is None or b is None:
+                return None
+            return a if a == b else simp(("ite", t[1], a, b))
+        if t[0] == "call" and t[1] in ("set", "frozenset", "list") and len(t[2]) == 1:
+            return set_pred(sx, t[2][0], slist_terms, depth + 1)
+        if t[0] == "compr" and t[1] in sx.loops:
+            L = sx.loops[t[1]]
+            el = ("elem", L.id)
+            if L.source not in slist_terms or not L.whole or L.elt != ("attr", el, "idx"):
+                return None
+            P = simp(("and", tuple(L.filters))) if L.filters else TRUE
+
+            def f(x):
+                if x[0] == "attr" and x[1] == el:
+                    return ("t",) if x[2] == "idx" else ("sf", ("t",), x[2])
+                return None
+            return subst(P, f)
+        return None
+    X = flt[3]
+    own_slist = (("v", k.slist),)
+    params = [p for p in k.func.params if p not in ("self", k.slist)]
+    # the value the solver hands in for the extra parameter
+    handed = {}
+    if params:
+        g = ctx.func("tad.py::Solver.prune_paths")
+        sx2 = SymX(ctx, g, "Solver", inline_depth=2).run()
+        for L in sx2.loops.values():
+            for e in L.effects:
+                if e[1] == "call" and e[2][0] == "mcall" and e[2][2] == k.func.name:
+                    args = e[2][3]
+                    names = [p for p in k.func.params if p != "self"]
+                    for i, a in enumerate(args):
+                        if i < len(names) and names[i] in params:
+                            handed[names[i]] = (sx2, a)
+                    for kw, a in e[2][4]:
+                        if kw in params:
+                            handed[kw] = (sx2, a)
+
+    def resolve(t):
+        if t[0] == "v" and t[1] in handed:
+            sx2, a = handed[t[1]]
+            return set_pred(sx2, a, (shared.SLIST(ctx),))
+        if t[0] == "ite" and t[1][0] == "cmp" and t[1][1] in ("is", "==") and C(None) in (t[1][2], t[1][3]):
+            p_ = t[1][3] if t[1][2] == C(None) else t[1][2]
+            if p_[0] == "v" and p_[1] in handed:
+                return resolve(t[3])         # the solver always passes a value: the default branch is not taken on that path
+            a, b = resolve(t[2]), resolve(t[3])
+            return a if a is not None and a == b else None
+        return set_pred(k.sx, t, own_slist)
+    P = resolve(X)
+    if P is None:
+        return None
+    return deep_simp(simp(("not", P)))
 
 
 def _conjuncts(t):
@@ -329,6 +403,7 @@ def _denominator(k, D):
             s = s[1]
         if s != SELF_NEXT or kf.term != ("p",) or not (is_const(kf.init) and kf.init[1] == 0) or not kf.whole:
             return "`%s`" % kf.text()
+        flt = _dead_set_filter(k.ctx, k, flt) or flt
         if _alive_filter_verdict(flt) is None:
             return True
         if flt == TRUE:
